@@ -199,6 +199,27 @@ def bounded_graphs(tier, seed):
             failures.append({"id": "bounded:build_schemas:rest-state", "detail": err, "input": raw})
             if len(failures) > 5:
                 break
+    # denser graphs: four schemas, five to seven edges, allOf edges over-represented (inheritance chains that loop while other edge kinds cross them)
+    rnd_d = random.Random(seed + 77)
+    names_d = ["X", "P", "Q", "Y"]
+    kinds_d = ["allOf", "allOf", "allOf", "prop", "array", "oneOf", "map", "inline"]
+    for gi in range(160 if tier == "quick" else 1500):
+        raw = {nm: {"type": "object", "properties": {"id": {"type": "string"}}} for nm in names_d}
+        for k in range(rnd_d.randint(5, 7)):
+            a, b, kind = rnd_d.choice(names_d), rnd_d.choice(names_d), rnd_d.choice(kinds_d)
+            if kind == "allOf":
+                raw[a].setdefault("allOf", []).append({"$ref": f"#/components/schemas/{b}"})
+            else:
+                raw[a]["properties"][f"e{k}"] = _edge(kind, b)
+        order = names_d[:]
+        rnd_d.shuffle(order)
+        err, ev = _run_doc({nm: raw[nm] for nm in order})
+        n += 1
+        distinct.add(repr(raw))
+        if err:
+            failures.append({"id": "bounded:build_schemas:dense-graph", "detail": err, "input": {nm: raw[nm] for nm in order}})
+            if len(failures) > 5:
+                break
     for label, raw, md in deep_docs():
         err, ev = _run_doc(raw, md)
         n += 1
